@@ -4,7 +4,7 @@ from __future__ import annotations
 from hypothesis import strategies as st
 
 from .. import gen
-from ..cells import build, cells, cells_of_desc, cells_of_str, show
+from ..cells import build_any, cells, cells_of_desc, cells_of_str, show
 from ..common import Res, call, exc_str, hyp_campaign
 
 PROP = "C09"
@@ -21,13 +21,15 @@ SHARDS = {"quick": 4, "thorough": 16}
 def run_case(case):
     res = Res()
     desc = case["desc"]
-    f = build(desc, case.get("build", "chunks"))
+    f = build_any(desc, case.get("build", "chunks"), case.get("obs", 0))
+    if case.get("obs") or case.get("build") in gen.DERIVED_BUILDS:
+        res.label("receiver_with_history")
     base = cells_of_desc(desc)
     if "new_str" in case:
         new, newc = case["new_str"], cells_of_str(case["new_str"])
         res.label("new_is_str")
     else:
-        new, newc = build(case["new_desc"], "chunks"), cells_of_desc(case["new_desc"])
+        new, newc = build_any(case["new_desc"], case.get("new_build", "chunks"), case.get("new_obs", 0)), cells_of_desc(case["new_desc"])
         res.label("new_is_fmtstr")
         if not case["new_desc"]:
             res.label("new_zero_runs")
@@ -47,7 +49,12 @@ def run_case(case):
     near = {d + k for d in interior for k in (-1, 0, 1)}
     str_before = str(f)
     evals = 0
-    pairs = [(s, e) for s in range(0, n + 3) for e in range(s, n + 3)] + [(s, None) for s in range(0, n + 3)]
+    if n <= 12:
+        pts = list(range(0, n + 3))
+    else:
+        pts = sorted({0, 1, n - 1, n, n + 1, n + 2, n // 2} | {d + k for d in divs for k in (-1, 0, 1) if 0 <= d + k <= n + 2})
+        pts = pts[:: max(1, len(pts) // 12)][:12] + pts[-2:]
+    pairs = [(s, e) for s in pts for e in pts if e >= s] + [(s, None) for s in pts]
     for s, e in pairs:
         evals += 1
         ee = s if e is None else e
@@ -83,15 +90,16 @@ def run_case(case):
 
 
 def strategy():
-    d = gen.desc(alphabet="abcde ", max_runs=5, max_len=3)
+    d = gen.desc_sized(alphabet="abcde ", max_runs=5, max_len=3, big_runs=24, big_len=60)
     return st.one_of(
-        st.fixed_dictionaries({"desc": d, "new_str": gen.text("XY", 0, 2), "build": st.sampled_from(["chunks", "fmtstr"])}),
-        st.fixed_dictionaries({"desc": d, "new_desc": gen.desc(alphabet="XY", max_runs=3, max_len=2)}),
+        st.fixed_dictionaries({"desc": d, "new_str": st.one_of(gen.text("XY", 0, 2), gen.plain_str(3)), "build": gen.BUILDS, "obs": gen.OBS}),
+        st.fixed_dictionaries({"desc": d, "new_desc": gen.desc_sized(alphabet="XY", max_runs=3, max_len=2, big_runs=12, big_len=40),
+                               "build": gen.BUILDS, "obs": gen.OBS, "new_build": gen.BUILDS, "new_obs": gen.OBS}),
     )
 
 
 def campaign(col, tier, seed, shard, nshards):
-    n = 2400 if tier == "quick" else 128000
+    n = 1600 if tier == "quick" else 128000
     hyp_campaign(col, strategy(), run_case, max(n // nshards, 100), seed * 100 + shard)
     if tier == "thorough":
         import sys as _sys
